@@ -4,9 +4,7 @@ CONSTANTS
   Keys = {k1}
   MaxOps = 3
   KeygenOrder <- OrderAsCoded
-  PinIsCounter = TRUE
-  WithCallback = FALSE
-INVARIANT MutualExclusion
-INVARIANT Serializable
-PROPERTY Progress
+  PinIsCounter = FALSE
+  WithCallback = TRUE
+INVARIANT NoUseOfDeletedKey
 CHECK_DEADLOCK FALSE
